@@ -64,7 +64,7 @@ theorem no_stuck_task {s : State} (h : Reachable repaired s) (hq : s.queue ≠ [
       | nil => exact absurd hs hq
       | cons a l => simp [abs, hs]
     have := hinv.q hq'
-    simp only [State.live] at hw
+    simp only [State.live, clive] at hw
     simp only [asleep, awake, abs] at this hin
     have h2 := this (by show 0 < cntOf s.pcs .willWait + cntOf s.pcs .waiting; omega)
     change 0 < _ + (abs s).inflight at h2
@@ -85,7 +85,7 @@ theorem resize_converges {s : State} (h : Reachable repaired s) (hk : 0 < s.kill
     have hinv := inv_reachable h
     have hlen := length_eq_sum s.pcs
     have := hinv.k (by simpa [abs] using hk)
-    simp only [State.live] at hw
+    simp only [State.live, clive] at hw
     have h2 := this (by show 0 < cntOf s.pcs .willWait + cntOf s.pcs .waiting; omega)
     simp only [CState.inflight] at hin
     omega
@@ -134,6 +134,64 @@ theorem joinall_drains {v : Variant} {s : State} (h : Reachable v s) (hg : joinA
 example : ∃ s, Reachable repaired s ∧ joinAllGuard s = true ∧ s.done = [7] :=
   ⟨_, ⟨[.swcUp 1, .aPush 7, .killPass 0, .pop 0 7, .finish 0, .joinKill, .killPass 0, .popNone 0, .exit 0], rfl⟩,
     by decide, by decide⟩
+
+/-- events that start another resize or JoinAll (they set the kill counter) -/
+def isResize : Event → Bool
+  | .swcSet _ | .swcUp _ | .swcDown _ | .joinKill => true
+  | _ => false
+
+theorem isResize_abs (s : State) (e : Event) : (absEvent s e).isResize = isResize e := by
+  cases e <;> simp [absEvent, CEvent.isResize, isResize]
+
+/-- **Resizing reaches the requested number** (SetWorkerCount after the resize-race repair,
+    `swcSet c`: one critical section that computes the delta from `len(workerMap) - workerExiting`).
+    From any state in which no JoinAll is being carried out (workerKill ≥ 0, no worker on the
+    exit-when-drained path) — in particular
+    while an *earlier* resize is still being carried out, with kill requests pending or workers on
+    their way out — after `SetWorkerCount(c)` every later state, as long as no further resize/JoinAll
+    starts, satisfies: workers not yet told to exit = `c` + kill requests still to be taken. So the
+    kill counter never over- or under-shoots; when it has reached 0 exactly `c` workers are left, and
+    once the exiting ones are gone `len(workerMap) = c`. -/
+theorem resize_target {s s1 s' : State} {c : Nat} {es : List Event}
+    (hj : cntOf s.pcs .chkF = 0) (hk : 0 ≤ s.kill) (h1 : step repaired s (.swcSet c) = some s1)
+    (hes : ∀ e ∈ es, isResize e = false) (h : runFrom repaired s1 es = some s') :
+    0 ≤ s'.kill ∧ (s'.live : Int) = c + s'.kill ∧
+      (s'.kill = 0 → cntOf s'.pcs .exiting = 0 → s'.workerCount = c) := by
+  have h0 : CResize c (abs s1) := cresize_set (by simpa [abs] using hj) (by simpa [abs] using hk) (sim_step h1)
+  suffices ∀ (es : List Event) (s1 : State), CResize c (abs s1) → (∀ e ∈ es, isResize e = false) →
+      runFrom repaired s1 es = some s' → CResize c (abs s') by
+    obtain ⟨hk, hl, _⟩ := this es s1 h0 hes h
+    refine ⟨hk, hl, fun hk0 hex => ?_⟩
+    have hlen := length_eq_sum s'.pcs
+    have hl' : (clive (cntOf s'.pcs) : Int) = c := by simpa [abs, hk0] using hl
+    simp only [clive] at hl'
+    simp only [State.workerCount]
+    omega
+  intro es
+  induction es with
+  | nil => intro s1 h0 _ h; simp [runFrom, List.foldlM] at h; subst h; exact h0
+  | cons e es ih =>
+    intro s1 h0 hes h
+    simp only [runFrom, List.foldlM_cons] at h
+    cases hs : step repaired s1 e with
+    | none => simp [hs] at h
+    | some s2 =>
+      simp [hs] at h
+      have he : isResize e = false := hes e (by simp)
+      exact ih s2 (cresize_step h0 (by rw [isResize_abs]; exact he) (sim_step hs))
+        (fun e' he' => hes e' (by simp [he'])) h
+
+/-- the resize race of the code before the repair, as a run of the model (over-approximated
+    SetWorkerCount: `swcDown k` sets any workerKill): three workers, resize to 2 — one worker takes the
+    kill request —, then resize to 1 with workerKill computed from the stale count 3: no worker is left.
+    With `swcSet` the same interleaving leaves exactly one. -/
+example : ∃ s, runFrom repaired init
+    [.swcUp 3, .swcDown 0, .killExit 0, .swcDown 1, .killExit 1, .killExit 2] = some s ∧ s.live = 0 :=
+  ⟨_, rfl, by decide⟩
+
+example : ∃ s, runFrom repaired init
+    [.swcSet 3, .swcSet 2, .killExit 0, .swcSet 1, .killExit 1] = some s ∧ s.live = 1 ∧ s.kill = 0 :=
+  ⟨_, rfl, by decide, by decide⟩
 
 /-- the schedule that loses the wake-up: the worker finds the queue empty; AddTask runs to
     completion (its Signal finds nobody waiting); then the worker goes to sleep -/
